@@ -11,7 +11,7 @@ CONSTANTS
   MaxOps = 4
   MaxSnaps = 1
   MaxRestarts = 1
-INVARIANTS NoTombLive GroupsValid GroupsFine EpochsFine FlagsConsistent
+INVARIANTS NoTombLive NoRecLive GroupsValid GroupsFine EpochsFine FlagsConsistent
 PROPERTIES A_RS_GroupAsg
 VIEW MCView
 CHECK_DEADLOCK FALSE
